@@ -2,7 +2,22 @@
 
 package fragmentbuffer
 
-// VerifSize reports buffered bytes and fragments (overlay only).
+// VerifSize reports what the buffer actually retains (overlay only): the bytes and fragments
+// reachable from its cache, counted by walking it, not the buffer's own accounting - an entry the
+// accounting misses is exactly what a bloat oracle has to see.
 func (f *FragmentBuffer) VerifSize() (bytes, fragments, messages int) {
-	return f.totalBufferSize, f.totalFragmentCount, len(f.cache)
+	for _, m := range f.cache {
+		fragments += len(m.fragmentByOffset)
+		for _, fr := range m.fragmentByOffset {
+			bytes += len(fr.data)
+		}
+	}
+	if f.totalBufferSize > bytes {
+		bytes = f.totalBufferSize
+	}
+	if f.totalFragmentCount > fragments {
+		fragments = f.totalFragmentCount
+	}
+
+	return bytes, fragments, len(f.cache)
 }
